@@ -21,12 +21,22 @@ class Spec:
         return 1600 if tier == "quick" else 16000
 
     def strategy(self, tier):
-        o = {"p_failflag": 0, "p_csum": 60, "p_always": 8, "p_ifc": 5, "min_targets": 3,
-             "weights": {"cmd": 45, "edit": 30, "failflag": 0, "setdo": 5, "adddo": 1, "rmdo": 1, "rmtarget": 8,
+        o = {"p_failflag": 0, "p_csum": 60, "p_always": 8, "p_ifc": 5, "min_targets": 3, "p_stampif": 30,
+             "weights": {"cmd": 45, "edit": 30, "stampflag": 8, "failflag": 0, "setdo": 5, "adddo": 1, "rmdo": 1, "rmtarget": 8,
                          "redo": 8, "mkpath": 1, "rmpath": 1, "ext": 2, "touch": 3}}
+        # second family: tiny projects, small operation alphabet (command / edit-or-revert one of two sources /
+        # toggle "does this rule call redo-stamp") -- long enough histories over few objects reach multi-step shapes
+        # such as stamped(D) -> rebuilt unstamped with other content -> stamped(D) again
+        t = {"min_targets": 2, "max_targets": 3, "max_sources": 2, "max_dirs": 0, "p_csum": 75, "p_stampif": 80,
+             "p_always": 0, "p_ifc": 0, "p_failflag": 0, "p_default": 0, "min_ops": 12, "max_ops": 22,
+             "max_cmd_targets": 1, "p_focus": 70, "edit_variants": 2,
+             "weights": {"cmd": 50, "edit": 30, "stampflag": 15, "touch": 0, "rmtarget": 3, "setdo": 0, "adddo": 0,
+                         "rmdo": 0, "mkpath": 0, "rmpath": 0, "ext": 0, "failflag": 0, "redo": 2}}
         if tier == "thorough":
             o.update(max_targets=12, max_ops=28)
-        return gen.histories(o)
+            t.update(max_ops=30)
+        from hypothesis import strategies as st
+        return st.one_of(gen.histories(o), gen.histories(t))
 
     def run_case(self, case, tier):
         return hist.HistoryRunner(case, self.checks, tag="c03").run()
